@@ -140,7 +140,7 @@ def run(tier, seed):
     r.assumptions = ["values that C01 finds unroutable are counted (coverage.unroutable_values) and skipped here",
                      "a value admitted by two union members counts as witness for both (lenient)"]
     unr = 0
-    budget = 50 if tier == "quick" else 900
+    budget = 240 if tier == "quick" else 1500
     for case, res in core.pmap(execute, _cases(tier), chunksize=128, budget_s=budget):
         r.add(case, res)
         unr += res.get("unroutable", 0)
